@@ -18,6 +18,7 @@ import numpy as np
 import sim  # noqa: F401
 from sim import build
 from sim.core import attempt, exc_tag
+from sim.oracle import chaos
 
 PROPERTY = "C14"
 LEVEL = "exploration"
@@ -157,7 +158,7 @@ def check(ctx, nd, what):
            "min": float(st.min), "max": float(st.max)}
     want = {"weight": W, "sum": S1, "sum2": S2, "min": lo, "max": hi}
     for name in ("weight", "sum", "sum2"):
-        if not abs(got[name] - want[name]) <= tol:
+        if chaos() or not abs(got[name] - want[name]) <= tol:
             ctx.violation("C14/moments", f"C14/statistics.{name}/{what}",
                           f"after {what}: statistics.{name} = {got[name]!r} but the {len(nd.bag)} values entered "
                           f"(scale factor {nd.factor!r}) give {want[name]!r}")
@@ -172,7 +173,7 @@ def check(ctx, nd, what):
         m = S1 / W
         v = S2 / W - m * m
         mtol = 1e-9 * (scale / W)
-        if not abs(mean - m) <= mtol:
+        if chaos() or not abs(mean - m) <= mtol:
             ctx.violation("C14/mean", f"C14/mean/{what}", f"after {what}: mean() = {mean!r}, data mean is {m!r}")
         if not abs(var - v) <= 1e-9 * (scale / W) * (1 + abs(m)):
             ctx.violation("C14/variance", f"C14/variance/{what}",
@@ -469,7 +470,7 @@ def execute(plan, ctx):
             with np.errstate(all="ignore"):
                 mean = float(res.statistics.mean())
                 var = float(res.statistics.variance())
-            if not math.isnan(mean) or not math.isnan(var):
+            if chaos() or not math.isnan(mean) or not math.isnan(var):
                 ctx.violation("C14/invalid-stays-invalid", f"C14/invalid-became-numbers/{how}",
                               f"{how} involving a histogram with invalid statistics reports mean() = {mean!r}, "
                               f"variance() = {var!r}: numbers that ignore part of the contents instead of NaN")
